@@ -7,6 +7,9 @@ use futures_util::stream::FuturesUnordered;
 
 use octseq::Octets;
 
+#[cfg(feature = "verif-hooks")]
+use super::verif_rand::{random, random_range};
+#[cfg(not(feature = "verif-hooks"))]
 use rand::{random, random_range};
 
 use alloc::boxed::Box;
